@@ -43,7 +43,10 @@ RECURSIVE CpBad(_, _, _)
 CpBad(e, k, acc) ==
   IF k > Len(e.checkpoints) THEN acc
   ELSE LET cp == e.checkpoints[k]
-           bad == {i \in 1..Len(cp.open) : ~SameValue(e.inputs[cp.open[i]], cp.values[i])} IN
+           \* what a held record must be: the value that was written to the file, or -- once the application has written
+           \* into the memory it was handed with it (BankPool!AppWrite) -- the record as its owner left it
+           Want(i) == IF "written" \notin DOMAIN cp \/ cp.written[i].k = "none" THEN e.inputs[cp.open[i]] ELSE cp.written[i]
+           bad == {i \in 1..Len(cp.open) : ~SameValue(Want(i), cp.values[i])} IN
        IF bad # {} THEN <<"a retained record changed while its bank was still open (checkpoint after " \o cp.after \o ")">>
        \* BankPool!PoolOnce observed: the banks of records held at the same time are different objects
        ELSE IF \E i, j \in 1..Len(cp.banks) : i # j /\ cp.banks[i] = cp.banks[j]
